@@ -2,7 +2,8 @@
 //! points) or a real cause of death; how long until run() returns.  One scenario per process,
 //! inside a private mount namespace (the daemon uses /var/run/clockbound/shm and chronyd's socket).
 //!   thr <point|unwritable-segment> <nth> <0 = panic | 1 = return> [<chronyd: 0 = absent | 1 = hung | 2 = answers once | 3 = answers after 150 ms | 4 = absent, and the segment file locked by another process
-//!                                                 | 5 = answers at once, never with tracking data | 6 = answers with a datagram that is no reply>
+//!                                                 | 5 = answers at once, never with tracking data | 6 = answers with a datagram that is no reply
+//!                                                 | 7 = absent, and the segment file left with an odd generation by a daemon killed mid-update>
 //!       [<delay point> <nth> <ms>]]
 //! chronyd answers once: the first request gets tracking data, every later one a well-formed reply
 //! without tracking data (so the poller reports "not responding, within the grace period").
@@ -99,6 +100,20 @@ pub fn run(toks: &[&str]) -> String {
         assert!(line.starts_with("locked"), "the lock holder could not lock the segment file");
         lock_holder = Some(ch);
     }
+    // 7: chronyd absent, and the segment file as a daemon killed in the middle of an update left it: a valid header,
+    // the generation odd
+    if toks.len() > 3 && p::<i64>(toks[3]) == 7 {
+        let _ = std::fs::remove_file("/var/run/clockbound");
+        let _ = std::fs::create_dir_all("/var/run/clockbound");
+        let mut b = Vec::with_capacity(72);
+        b.extend_from_slice(&0x414D5A4Eu32.to_ne_bytes());
+        b.extend_from_slice(&0x43420200u32.to_ne_bytes());
+        b.extend_from_slice(&72u32.to_ne_bytes());
+        b.extend_from_slice(&1u16.to_ne_bytes());
+        b.extend_from_slice(&7u16.to_ne_bytes());
+        b.extend_from_slice(&[0u8; 56]);
+        std::fs::write("/var/run/clockbound/shm", &b).expect("segment left by a dead daemon (run inside the namespace)");
+    }
     let real_cause = point == "unwritable-segment";
     if real_cause {
         // the segment's directory cannot be created: ShmWriter::new fails, the writer thread panics
@@ -106,7 +121,7 @@ pub fn run(toks: &[&str]) -> String {
         std::fs::write("/var/run/clockbound", b"not a directory").expect("scratch /var/run (run inside the namespace)");
         verif_fault::arm(None);
     } else {
-        if !locked {
+        if !locked && !(toks.len() > 3 && p::<i64>(toks[3]) == 7) {
             let _ = std::fs::remove_file("/var/run/clockbound");
         }
         verif_fault::arm(Some((point, nth, fault)));
